@@ -439,11 +439,11 @@ fn add_intersecting_format2_patches(
     };
 
     for (order, e) in entries.iter().enumerate() {
-        if e.ignored {
-            continue;
-        }
-
-        if !entry_intersection_cache.intersects(order, subset_definition) {
+        // Evaluate (and cache) every entry in order, including ignored ones. Child indices only
+        // refer to prior entries, so all children are then already cached and a chain of ignored
+        // entries can't drive the intersection check into unbounded recursion.
+        let intersects = entry_intersection_cache.intersects(order, subset_definition);
+        if e.ignored || !intersects {
             continue;
         }
 
